@@ -52,6 +52,8 @@ def run(tier):
     rep.rule('R17.2', 'the record is selected by pointer equality on the context; every port effect of parseFrame carries the caller\'s context', floor=50)
     rep.rule('R17.3', 'functions reachable from a thread start routine access shared mutable core storage only under a lock', floor=1)
     prog = load_core('systemd')
+    from .frame_common import iface_list_name
+    LIST = iface_list_name(prog)      # by type, not by name
     # ---- R17.1
     glob = {}
     for ix in prog.index.values():
@@ -59,12 +61,12 @@ def run(tier):
             glob[(n.get('name'), n.get('_fn'))] = (ix, n)
     names = sorted(k[0] for k in glob)
     for (name, fn), (ix, n) in sorted(glob.items()):
-        ok = name == 'g_iface_states' and fn is None
+        ok = name == LIST and fn is None
         rep.check(ok, 'R17.1', 'static|%s|%s' % (os.path.relpath(n['_file'], REPO), name),
                   'the core has mutable static storage `%s`%s besides the per-interface state list: state shared by all interfaces' % (name, ' (in %s)' % fn if fn else ''),
                   node=n, function=fn, sample={'mutable_static': name})
-    if 'g_iface_states' not in names:
-        rep.broke('anchor g_iface_states vanished')
+    if LIST not in names:
+        rep.broke('anchor: list head of interface records vanished')
     # ---- R17.2
     check_state_for_iface(rep, prog, 'R17.2')
     fs = FrameSetup(prog, mtu_ok=True)
@@ -105,7 +107,7 @@ def run(tier):
             if not is_core(fn):
                 continue
             for n in walk(fn):
-                if n.get('kind') == 'DeclRefExpr' and n.get('referencedDecl', {}).get('name') == 'g_iface_states':
+                if n.get('kind') == 'DeclRefExpr' and n.get('referencedDecl', {}).get('name') == LIST:
                     rep.check(fname in module, 'R17.2', 'global-use|%s' % fname,
                               'the interface list is accessed in %s, outside the context-keyed lookup' % fname, node=n, function=fname)
     # ---- R17.3 lockset over the daemons that parse here
@@ -149,7 +151,7 @@ def run(tier):
             for fname, nm, n, ix in touched:
                 # the instance is the shared object (file + variable), not the function that happens to touch it: splitting
                 # the lookup into helpers neither creates nor removes the race
-                key = '%s|%s' % (os.path.relpath(n['_file'], REPO), nm)
+                key = '%s|%s' % (os.path.relpath(n['_file'], REPO), 'g_iface_states' if nm == LIST else nm)      # (canonical label for the list head)
                 rep.check(locked or not in_loop, 'R17.3', key,
                           '%s: start routine %s (one thread per interface, created in a loop in %s) reaches %s, which reads/writes the shared `%s` without any lock - '
                           'two interfaces receiving their first frames together race on the list head' % (main, sname, creator, fname, nm), node=n, function=fname)
